@@ -35,11 +35,13 @@ def _cancel_resume(env: Env, out: Outcome, n: int) -> None:
         c = env.replay["payload"]["case"]["cancel_resume"]
         jobs.append((c["spec"], c["seed"], c.get("actions1"), c.get("actions2")))
     for _ in range(n):
-        spec = specgen.gen_spec(rng, allow_timeout=False, family=rng.choice(["general", "fanin", "retry"]))
+        spec = specgen.gen_spec(rng, allow_timeout=False, family=rng.choice(["general", "fanin", "retry", "wait"]))
         spec["externals"] = [e for e in spec.get("externals", []) if e["op"] == "send"]
         spec["externals"].append({"op": "cancel", "after_quiet": rng.randint(0, 4)})
         spec["snapshot_after_end"] = True
         spec.pop("timeout", None)
+        if rng.random() < 0.6:
+            spec["resume_timeout"] = rng.choice([1, 2, 4, 10, 30])
         jobs.append((spec, rng.randrange(1 << 30), None, None))
     for spec, seed, a1, a2 in jobs:
         tr1 = live.run_spec(spec, seed=seed, replay_actions=a1)
@@ -64,6 +66,9 @@ def _cancel_resume(env: Env, out: Outcome, n: int) -> None:
         spec2 = copy.deepcopy(spec)
         spec2["externals"] = copy.deepcopy([e for e in getattr(tr1, "remaining_externals", []) if e["op"] == "send"])
         spec2.pop("snapshot_after_end", None)
+        spec2["_resumed"] = True
+        if spec.get("resume_timeout") is not None:
+            spec2["timeout"] = spec["resume_timeout"]  # the resumed run is bounded by the workflow's timeout like a fresh one
         tr2 = live.run_spec(spec2, seed=seed + 1, replay_actions=a2, resume_from=snaps[0]["dict"])
         case["cancel_resume"]["actions2"] = tr2.actions
         out.count("cancel_resume:resumed")
@@ -71,6 +76,10 @@ def _cancel_resume(env: Env, out: Outcome, n: int) -> None:
         out.count("cancel_resume:outcome:" + tr2.outcome[0])
         if pending:
             out.nontrivial((repr(spec), tuple(tr1.actions)))
+        out.count("cancel_resume:resume_timeout:" + str(spec2.get("timeout")))
+        for v in monitors.mon_c31(tr2):
+            v.replay = case
+            out.violations.append(v)
         if tr2.outcome[0] in ("invalid",):
             out.violations.append(Violation("C31/resume_after_cancel_failed", f"Context.from_dict/run raised: {tr2.outcome[1]!r}", case))
             continue
